@@ -10,7 +10,7 @@ use serde_json::json;
 pub fn prop() -> Prop {
   Prop {
     id: "C16",
-    rule: "case = (producer: interval(p) on the virtual scheduler, from_iter over a counting iterator of 40 items, from_stream over a counting stream of 40 ready items; 0..3 intermediate operators that do not end the stream themselves (take(30+), take_while(true), skip_last, map, filter, tap, scan, skip, skip_while, start_with, distinct_until_changed, pairwise, buffer_with_count, finalize, box_it, on_complete, default_if_empty, on_error_map, complete_status); an early-terminating operator: take(n>=1), first, element_at, take_while, contains, all, take_until(hot notifier); the producer chain either is the main input of the cutter or sits in the second (notifier/other) position of merge / zip / combine_latest / with_latest_from / sample / buffer / skip_until / take_until whose main input is a scripted hot input, with the cutter on top; local and thread-safe builds; script of <= 10 emissions / clock advances; one case in eight ends the stream late: producers of 160 items, take / element_at / take_while at 33..120, clock advances of 20..80 ticks). \
+    rule: "case = (producer: interval(p) on the virtual scheduler, from_iter over a counting iterator of 40 items, from_stream over a counting stream of 40 ready items; 0..3 intermediate operators that do not end the stream themselves (take(30+), take_while(true), skip_last, map, filter, tap, scan, skip, skip_while, start_with, distinct_until_changed, pairwise, buffer_with_count, finalize, box_it, on_complete, default_if_empty, on_error_map, complete_status); an early-terminating operator: take(n>=1), first, element_at, take_while, contains, all, take_until(hot notifier); the producer chain either is the main input of the cutter or sits in the second (notifier/other) position of merge / zip / combine_latest / with_latest_from / sample / buffer / skip_until / take_until whose main input is a scripted hot input, with the cutter on top; local and thread-safe builds; script of <= 10 emissions / clock advances; one case in eight ends the stream late: producers of 160 items, take / element_at / take_while at 33..120, clock advances of 20..80 ticks; one case in five: the producer chain is the MAIN input of merge / zip / combine_latest / with_latest_from / sample / buffer / skip_until / take_until whose second input is a scripted hot subject (a gate that may stay silent), and the stream is ended by something else downstream - take_until(second hot subject), or take(k) over a merge with a cold sibling of k items that fills it at subscription). \
            Oracle (applied when the subscriber received its terminal): running the scheduler until idle terminates - after at most (number of periodic producers) further timer firings no timer is pending and no scheduled task is alive; a counting iterator is asked for at most one more item after the terminal; a counting stream is polled at most once more. Non-trivial: the terminal was caused by the cutter (not by the producer running out) and there is >= 1 intermediate operator or the producer is in notifier position. Distinct by hash(case).",
     assumptions: &["iterators and streams are bounded (40 items) so that a producer that is not stopped shows up as extra pulls, not as a hang"],
     parts: vec![Part { name: "producers", run: run_case, tape_len: 64, quick_cases: 600_000, thorough_cases: 12_000_000, exhaustive_depth: None, exhaustive_budget: 0, exh_quick: false }],
@@ -67,11 +67,55 @@ fn gen_case(c: &mut dyn Choices) -> Case {
   let case = gen_case_with(c, false);
   // (appended picks, recorded tapes keep their meaning) one case in eight ends the stream late instead:
   // after 33..120 items / ticks, with producers of 160 items and clock advances of 20..80 ticks
-  if c.pick(8) == 7 {
-    gen_case_with(c, true)
+  let case = if c.pick(8) == 7 { gen_case_with(c, true) } else { case };
+  // (appended picks) one case in five: the producer is the MAIN input of a two-input operator whose second input
+  // is a hot subject (a gate that may stay silent), and the stream is ended by something else downstream:
+  // take_until(stop) with a hot stop, or a cold sibling of a merge that fills a take at subscription
+  if c.pick(5) == 4 {
+    gen_gated(c)
   } else {
     case
   }
+}
+
+fn gen_gated(c: &mut dyn Choices) -> Case {
+  let producer = match c.pick(3) {
+    0 => Src::Interval(1 + c.pick(2) as u64),
+    1 => Src::CountingIter(40),
+    _ => Src::CountingStream(40),
+  };
+  let n_mid = c.pick(3);
+  let mut chain = Node::Src(producer.clone());
+  for _ in 0..n_mid {
+    chain = Node::Un(gen_mid(c), c.pick(4) == 0, Box::new(chain));
+  }
+  let gate = gen_bin(c);
+  let gated = Node::Bin(gate, c.pick(3) == 0, Box::new(chain), Box::new(Node::Src(Src::Hot(0))));
+  let node = if c.flag() {
+    Node::Bin(Bin::TakeUntil, c.pick(3) == 0, Box::new(gated), Box::new(Node::Src(Src::Hot(1))))
+  } else {
+    let k = 1 + c.pick(3);
+    let sibling = Node::Src(Src::FromIter((0..k).map(|i| V::I(100 + i as i64)).collect()));
+    Node::Un(Un::Take(k), false, Box::new(Node::Bin(Bin::Merge, c.pick(3) == 0, Box::new(sibling), Box::new(gated))))
+  };
+  let len = c.pick(11);
+  let mut script = vec![];
+  let mut id = 0;
+  for _ in 0..len {
+    script.push(match c.pick(6) {
+      0 | 1 => {
+        id += 1;
+        Step::Emit(1, Ev::N(V::I(id % 4)))
+      }
+      2 => {
+        id += 1;
+        Step::Emit(0, Ev::N(V::I(id % 4)))
+      }
+      _ => Step::Advance(1 + c.pick(3) as u64),
+    });
+  }
+  // the gating operator counts as an intermediate operator
+  Case { producer, notifier_pos: None, n_mid: n_mid + 1, pcase: PCase { node, kinds: vec![IKind::Subject, IKind::Subject], script, mode: SchedMode::Fifo, threads: c.pick(3) == 0 } }
 }
 
 fn gen_case_with(c: &mut dyn Choices, late: bool) -> Case {
@@ -156,6 +200,9 @@ fn run_case(c: &mut dyn Choices, ctx: &Ctx) -> Outcome {
   labels.push(if case.notifier_pos.is_some() { "pos:second-input" } else { "pos:main" });
   if case.pcase.threads {
     labels.push("build:threads");
+  }
+  if case.pcase.kinds.len() == 2 {
+    labels.push("shape:gated-main-input");
   }
   let mut nt = false;
   let verdict = match &res {
